@@ -13,8 +13,8 @@ REGISTRY = {
     'C11': ['wait', 'event', 'base_core'],
     'C12': ['core', 'handles'],
     'C13': ['coro', 'base_core', 'event'],
-    'C14': ['coro_mutex'],
-    'C15': ['shared_mutex', 'coro_mutex'],
+    'C14': ['coro_mutex', 'guards'],
+    'C15': ['shared_mutex', 'coro_mutex', 'guards'],
     'C16': ['event', 'base_core'],
     'C17': ['fault_sched'],
     'C18': ['fiber_locks'],
@@ -188,7 +188,7 @@ CLAIMS = {
                 'transfer; the unlocking coroutine is resubmitted exactly once where asked), BatchingPossible, UnlockAwaiter::await_ready, LockAwaiter.',
         'note': 'SC atomics (orders: C04, asserted in the same jobs); liveness (holders release, executors accept work, a granted coroutine is resumed once) is the '
                 'property\'s own assumption: only the safety shadow "a parked waiter makes the release fail, every unlock grants or releases" is proved; FIFO order through '
-                'the reversal additionally bounded on real memory (N<=6/10); guard classes (UniqueGuard / StickyGuard bookkeeping) are not under contract.',
+                'the reversal additionally bounded on real memory (N<=6/10). Guard classes (unit guards): GuardState bit bookkeeping, Guard<M, Shared> destructor / TryLock / UnlockHere (an owning guard releases exactly once, in its own mode), sticky awaiters (executor remembered iff parked; unlock goes home through AwaitUnlockOn).',
         'design': 'DESIGN.md 6 C14, 5.B, A.4',
     },
     'C15': {
@@ -202,7 +202,7 @@ CLAIMS = {
                 'length; lemma: the member initialisers establish the invariant. LockAwaiter<Base, Shared> ready / suspend (unit coro_mutex).',
         'note': 'SC atomics (C04 orders are not claimed for this class); fewer than 2^30 simultaneous readers / writers; the readers container is an abstract count (ReadersFIFO only selects the resume order); the token '
                 'meta-argument (other threads\' tokens are stable because every decrement is asserted to consume an own token) is a paper step; liveness itself is the property\'s premise - only the safety shadow is proved; '
-                'guard classes are not under contract. Replay: the real SharedMutex in a CORO build of the tree under check (replay/shared_mutex.cpp: overlap counters, Try* checks, lost-wake-up watchdog, 4 option pairs).',
+                'guard classes are in unit guards (an owning SharedGuard / UniqueGuard releases exactly once, in its own mode). Replay: the real SharedMutex in a CORO build of the tree under check (replay/shared_mutex.cpp: overlap counters, Try* checks, lost-wake-up watchdog, 4 option pairs).',
         'design': 'DESIGN.md 6 C15',
     },
     'C16': {
